@@ -89,6 +89,17 @@ theorem winv_step (c : Cfg) (s s' : S) (l : L) (h : WInv s) (hs : step c s l = s
     simp only [] at hw
     simp only [hw] at a3
     simpa using a3
+  | finalPersist =>
+    simp only [step] at hs
+    split at hs
+    · simp only [Option.some.injEq] at hs; subst hs
+      obtain ⟨a1, a2, a3, a4, a5, a6, a7, a8, a9, a10, a11, a12⟩ := h
+      refine ⟨a1, a2, a3, a4, a5, a5, Nat.le_refl _, a8, a9, a10, ?_, Nat.le_refl _⟩
+      intro hw
+      simp only [] at hw
+      simp only [hw] at a3
+      simpa using a3
+    · cases hs
   | step =>
     simp only [step] at hs
     cases hpc : s.pc with
@@ -343,6 +354,11 @@ theorem rinv_step (c : Cfg) (hc : c.sampleBefore = true) (s s' : S) (l : L) (h :
     · simp only [hw, if_false] at hs; subst hs; exact ⟨r1, r2, r3⟩
   | cancel => simp only [step, Option.some.injEq] at hs; subst hs; exact ⟨r1, r2, r3⟩
   | persist => simp only [step, Option.some.injEq] at hs; subst hs; exact ⟨r1, r2, r3⟩
+  | finalPersist =>
+    simp only [step] at hs
+    split at hs
+    · simp only [Option.some.injEq] at hs; subst hs; exact ⟨r1, r2, r3⟩
+    · cases hs
   | step =>
     simp only [step] at hs
     cases hpc : s.pc with
